@@ -313,6 +313,10 @@ def check(spec, ctx):
         if abs(a_s - a12) > 1e-9:
             ctx.fail(f"affinity changes under a common time shift {dt}: {a12} -> {a_s}", spec, a_s, a12, kind="shift")
 
+    # buffers passed positionally (documented order: geometry1, geometry2, time_buffer, freq_buffer)
+    a_pos = ctx.call(spec, "compute_affinity(g1, g2, tb, fb) positional", compute_affinity, g1, g2, tb, fb)
+    if a_pos != a12:
+        ctx.fail(f"compute_affinity with positional buffers = {a_pos}, with keyword buffers = {a12}", spec, a_pos, a12, kind="positional")
     # omitted buffers mean the documented defaults (0.01 s, 100 Hz)
     if max(b1[2], b2[2]) / 0.01 < 1e6:
         d_omitted = ctx.call(spec, "compute_affinity(defaults)", compute_affinity, g1, g2)
